@@ -525,13 +525,15 @@ def sched_enc_prog(instrs):
     return out
 
 # what each property's schedules are made of (weights of the ten label kinds)
+# guided schedules of the 'cow' profile also start make_mut (kind 10)
 SCHED_PROFILES = {
+    'cow':    [[2, 4, 4, 3, 0, 4, 3, 2, 0, 17, 6], [5, 4, 3, 2, 0, 8, 3, 1, 0, 14, 5], [2, 3, 3, 2, 1, 4, 2, 3, 2, 16, 4]],
     'drops':  [[3, 5, 0, 0, 0, 5, 5, 0, 0, 18], [6, 4, 0, 0, 0, 8, 4, 0, 0, 14]],
     'unique': [[2, 4, 4, 3, 2, 4, 3, 6, 0, 16], [5, 4, 3, 2, 1, 8, 3, 5, 0, 14]],
     'unwrap': [[2, 4, 1, 1, 4, 4, 3, 2, 6, 18], [5, 3, 1, 1, 3, 8, 3, 2, 5, 14], [2, 3, 3, 2, 4, 4, 2, 5, 3, 16]],
 }
 # free schedules also use make_mut (10), get_mut (11), try_unwrap (12), is_unique (13)
-SCHED_FREE_EXTRA = {'drops': [0, 0, 0, 1], 'unique': [4, 4, 2, 2], 'unwrap': [2, 1, 5, 1]}
+SCHED_FREE_EXTRA = {'drops': [0, 0, 0, 1], 'unique': [4, 4, 2, 2], 'unwrap': [2, 1, 5, 1], 'cow': [4, 2, 1]}
 def sched_gen(rng, profile, n, length, free=False):
     W = rng.choice(SCHED_PROFILES[profile])
     if free: W = W + SCHED_FREE_EXTRA[profile]
@@ -1629,7 +1631,7 @@ PROPS['C09']['streams'] = PROPS['C09']['streams'] + [DPANIC_STREAM]
 # the schedule stream: real threads against the machine of the translated counter programs
 PROPS['C02']['streams'] = PROPS['C02']['streams'] + [SCHED_STREAM('drops')]
 PROPS['C03']['streams'] = PROPS['C03']['streams'] + [SCHED_STREAM('unique')]
-PROPS['C08']['streams'] = PROPS['C08']['streams'] + [SCHED_STREAM('unique')]
+PROPS['C08']['streams'] = PROPS['C08']['streams'] + [SCHED_STREAM('cow')]
 PROPS['C09']['streams'] = PROPS['C09']['streams'] + [SCHED_STREAM('unwrap')]
 PROPS['C08']['streams'] = PROPS['C08']['streams'] + [DPANIC_STREAM]
 PROPS['C01']['assumptions'] = PROPS['C01']['assumptions'] + ['a panicking payload destructor: Rust drop glue destroys the remaining fields and elements while unwinding and Box frees its memory on the unwind path (Ctor.run_dpanic; validated by the destructor-panic cases)']
